@@ -57,7 +57,8 @@ def required(tier):
                         'data-dir:percent-sign-in-path',
                         'date:iso-week-year-differs-from-calendar-year',
                         'data-dir:relative-path', 'file:unused-variable-with-missing-cells',
-                        'file:incomplete-day:missing-hour-refused'],
+                        'file:incomplete-day:missing-hour-refused',
+                        'file:longitude-axis-descending', 'file:packed-16-bit-with-scale-and-offset'],
             'evaluations': 800}
 
 
@@ -100,6 +101,8 @@ def write_file(path: Path, fld: Field, rng):
     if rng.random() < 0.5:
         lats = lats[::-1].copy()          # ERA5 stores latitude descending
     lons = lon0 + np.arange(11) * 0.5
+    if getattr(fld, 'lon_descending', False):
+        lons = lons[::-1].copy()          # east to west
     P, LA, LO = np.meshgrid(levels, lats, lons, indexing='ij')
     if fld.timed:
         hours = np.arange(getattr(fld, 'n_hours', 24))
@@ -121,7 +124,18 @@ def write_file(path: Path, fld: Field, rng):
         tvar[..., 0:3, :, :] = np.nan
     ds = xr.Dataset({'u': (dims, u), 'v': (dims, v), 't': (dims, tvar)},
                     coords=coords)
-    ds.to_netcdf(path)
+    if getattr(fld, 'packed', False):
+        # the classic ERA5 layout: 16-bit integers with scale_factor / add_offset
+        enc = {}
+        for nm, arr in (('u', u), ('v', v)):
+            lo_, hi_ = float(np.min(arr)), float(np.max(arr))
+            sc = max((hi_ - lo_) / 60000.0, 1e-6)
+            enc[nm] = {'dtype': 'int16', 'scale_factor': sc, 'add_offset': 0.5 * (lo_ + hi_),
+                       '_FillValue': -32767}
+            fld.pack_step = max(getattr(fld, 'pack_step', 0.0), sc)
+        ds.to_netcdf(path, encoding=enc)
+    else:
+        ds.to_netcdf(path)
     ds.close()
     return (float(lats.min()), float(lats.max()), float(lons.min()), float(lons.max()),
             float(levels.min()), float(levels.max()))
@@ -171,12 +185,14 @@ def run_shard(spec, rec):
         pt = GroundTrack.Point(Location(lon, lat), heading)
         return wx.get_ground_speed(t, pt, alt, tas)
 
+    pack_tol = {'step': 0.0}       # quantisation of 16-bit packed files (0 for float files)
+
     def judge(got, tas, heading, u, v, what, case):
         """-> 'ok' | 'finding'; raises Mismatch for an unexplained value"""
         h = math.radians(heading)
         correct = math.hypot(tas * math.sin(h) + u, tas * math.cos(h) + v)
         defect = math.hypot(tas * math.cos(h) + u, tas * math.sin(h) + v)
-        tol = 1e-9 * max(1.0, abs(correct)) + 1e-9
+        tol = 1e-9 * max(1.0, abs(correct)) + 1e-9 + 2.0 * pack_tol['step']
         rec.ev()
         if not math.isfinite(got):
             raise Mismatch('ground speed not finite', {'got': got, 'check': what, **case})
@@ -202,6 +218,13 @@ def run_shard(spec, rec):
             timed = rng.random() < 0.5
             fld = Field(rng, kind, timed)
             fld.masked_t = rng.random() < 0.3
+            fld.lon_descending = rng.random() < 0.3
+            fld.packed = rng.random() < 0.3
+            fld.pack_step = 0.0
+            if fld.lon_descending:
+                rec.cls('file:longitude-axis-descending')
+            if fld.packed:
+                rec.cls('file:packed-16-bit-with-scale-and-offset')
             # an incomplete day: fewer than 24 hourly fields in the file
             fld.n_hours = rng.choice([24, 24, 24, 6, 13]) if timed else 24
             if fld.masked_t:
@@ -226,6 +249,7 @@ def run_shard(spec, rec):
             if base_day.isocalendar()[0] != base_day.year or D1.isocalendar()[0] != D1.year:
                 rec.cls('date:iso-week-year-differs-from-calendar-year')
             lat_lo, lat_hi, lon_lo, lon_hi, p_lo, p_hi = write_file(d / f'{F0}.nc', fld, rng)
+            pack_tol['step'] = fld.pack_step
             if k % 4 == 2:
                 # the data directory given relative to the current working directory
                 os.chdir(outside)
